@@ -350,6 +350,16 @@ class World(object):
                                 tr.state, ms(tr.taskTime) if tr.isScheduled else -1))
         return tuple(out)
 
+    def orphan_timers(self):
+        """scheduled timers of transactions that are in no transaction list any more"""
+        listed = set()
+        for n in self.nodes.values():
+            if n['cfg'].get('raw'):
+                continue
+            for tr in n['smap'].clientTransactions + n['smap'].serverTransactions:
+                listed.add(id(tr))
+        return sum(1 for (_, _, task) in self.tm.tasks if hasattr(task, 'ssmSAP') and id(task) not in listed)
+
     # ---- main loop
     def run(self, max_steps=20000):
         import bacpypes.core as core
@@ -405,7 +415,7 @@ class World(object):
                     fn(*args, **kwargs)
                 except Exception as e:
                     self.exn(e, 'deferred', -1)
-            t.ev('state', ms(NOW[0]), self.snapshot())
+            t.ev('state', ms(NOW[0]), self.snapshot(), self.orphan_timers())
         t.steps = steps
         t.end_t = ms(NOW[0])
         t.residue = {'snapshot': self.snapshot(), 'tasks': len(tm.tasks), 'inflight': len(self.inflight),
@@ -641,6 +651,21 @@ def check_c04(tr):
                         f.append({'kind': 'transaction-kept-after-outcome', 'req': no, 'state': state, 'armed': armed})
     for (pos, e) in unmatched:
         f.append({'kind': 'outcome-without-request', 'node': e[2], 'src': e[3], 'invoke': e[5], 'type': e[4]})
+    # a transaction that left its table keeps no timer
+    for e in tr.events:
+        if e[0] == 'state' and len(e) > 3 and e[3]:
+            f.append({'kind': 'timer-kept-after-removal', 't': e[1], 'timers': e[3]})
+            break
+    # the retry count is respected: an unsegmented request is put on the wire at most retries + 1 times
+    sent = {}
+    for fr in tr.frames:
+        h = fr['hdr']
+        c = _cfg(tr, fr['src'])
+        if h['type'] == 0 and h['seg'] == 0 and c is not None and not c.get('raw'):
+            no = _req_at(_submit_lookup(tr), (fr['src'], fr['dst'], h['invoke']), next(p for p, e in enumerate(tr.events) if e[0] == 'tx' and e[2] == fr['idx']))
+            sent[no] = sent.get(no, 0) + 1
+            if no is not None and sent[no] == c['retries'] + 2:
+                f.append({'kind': 'more-transmissions-than-retries', 'req': no, 'retries': c['retries'], 'frame': fr['idx']})
     if not tr.livelock:
         if tr.residue['snapshot']:
             f.append({'kind': 'residue-transactions', 'residue': list(tr.residue['snapshot'])})
@@ -933,6 +958,12 @@ def check_c12(tr):
                     f.append({'kind': 'window-larger-than-proposed', 'frame': fr['idx'], 'win': h['win'], 'proposed': pw})
     # number of segments of a response within the request's limit
     for (src, dst, inv, ty, _no), idxs in transfers(tr).items():
+        if ty == 0:
+            c = _cfg(tr, src) or {}
+            k = (c.get('know') or {}).get(dst) or (c.get('know') or {}).get(str(dst)) or {}
+            nseg = len(set(tr.frames[i]['hdr']['seq'] for i in idxs))
+            if k.get('maxSegs') and nseg > k['maxSegs'] and nseg <= 256:
+                f.append({'kind': 'more-request-segments-than-peer-accepts', 'invoke': inv, 'segments': nseg, 'limit': k['maxSegs']})
         if ty != 3:
             continue
         nseg = len(set(tr.frames[i]['hdr']['seq'] for i in idxs))
